@@ -100,7 +100,7 @@ CmpLine(k) ==
     \/ Focus = "C13" /\ k \in {"write"}
     \/ Focus = "C06" /\ k \in {"write", "prompt"}
 CmpHist == Focus \in {"ALL", "C10", "C16", "C14"}
-CmpCalls == Focus \in {"ALL", "C01", "C12", "C16", "C17", "C04", "C14"}
+CmpCalls == Focus \in {"ALL", "C01", "C12", "C16", "C17", "C04", "C14", "C07", "C08"}
 CmpPrompt == Focus \in {"ALL", "C01", "C06", "C13", "C16", "C14"}
 ChkSync == Focus \in {"ALL", "C06", "C16"}
 ChkFrame == Focus \in {"ALL", "C13"}
